@@ -3,7 +3,7 @@
 import json, os, subprocess
 ROOT = os.path.dirname(os.path.dirname(os.path.abspath(__file__)))
 cfg = json.load(open(os.path.join(ROOT, "checks.json")))
-cfg["checks"] = [json.load(open(os.path.join(ROOT, "checks.d", f))) for f in sorted(os.listdir(os.path.join(ROOT, "checks.d"))) if f.endswith(".json")]
+cfg["checks"] = [json.load(open(os.path.join(ROOT, "checks.d", f))) for f in sorted(os.listdir(os.path.join(ROOT, "checks.d"))) if f.endswith(".json") and f[:-5] in cfg.get("claimed", [])]
 props = [json.loads(l) for l in open(os.path.join(ROOT, "properties.jsonl"))]
 claimed = {c["id"] for c in cfg["checks"]}
 hooks_commits = []
